@@ -194,10 +194,48 @@ def check_neighbours(ctx: Ctx):
             ctx.decide("R17.1", ev, ev.node, base + f":{p}", "each aggregator records all of its own subjects exactly once", ok and bad is None, {"why": why} if not ok else None)
 
 
+def check_double_crash(ctx: Ctx):
+    """Thorough tier: every cut point of a three-subject session, then every cut point of the
+    restarted session, then a final complete session."""
+    prog = ctx.prog
+    header = header_row()
+    ev = agg_class(prog).lookup("evaluate")
+    subjects = ["s1", "s2", "s3"]
+    arg, canon = "/d/out.tsv", "/d/out.tsv"
+    fs = FS()
+    agg, bad = _session(prog, fs, arg, subjects)
+    if agg is None or bad is not None:
+        ctx.violated("R17.5", ev, None, f"{ev.qual}:double-crash", "uninterrupted three-subject session fails")
+        return
+    first = [e for e in fs.log if e[5] is not None]
+    n = 0
+    seen = set()
+    for i, e in enumerate(first):
+        fs1 = FS(e[5])
+        a1, b1 = _session(prog, fs1, arg, subjects)
+        if a1 is None or b1 is not None:
+            ctx.violated("R17.5", ev, None, f"{ev.qual}:double-crash:cut{i}", f"restart after '{e[0]} {e[1]}' fails")
+            continue
+        for j, e2 in enumerate([x for x in fs1.log if x[5] is not None]):
+            key = repr(sorted((k, [tuple(map(str, r)) for r in v]) for k, v in e2[5].items()))
+            if key in seen:
+                continue
+            seen.add(key)
+            fs2 = FS(e2[5])
+            a2, b2 = _session(prog, fs2, arg, subjects)
+            n += 1
+            ok, why = (False, "second restart fails") if (a2 is None or b2 is not None) else _check_final(fs2.files.get(canon), subjects, header)
+            if not ok:
+                ctx.violated("R17.5", ev, None, f"{ev.qual}:double-crash:cut{i}.{j}", "two successive crashes followed by a complete default session do not yield exactly one row per subject", {"first_crash_after": f"{e[0]} {e[1]}", "second_crash_after": f"{e2[0]} {e2[1]}", "why": why})
+    ctx.ok("R17.5", ev, ev.node, f"{ev.qual}:double-crash", f"{n} distinct file states after two successive crashes all recover to exactly one row per subject", {"states": n})
+
+
 def check(ctx: Ctx):
     check_constructor_states(ctx)
     check_crash_points(ctx)
     check_neighbours(ctx)
+    if ctx.tier == "thorough":
+        check_double_crash(ctx)
 
 
 _A = "panoptica/panoptica_aggregator.py"
